@@ -319,7 +319,7 @@ impl SipRewriter {
             // Find comparisons whose vars are subsets
             let comparison_ids: Vec<usize> = (0..comparisons.len())
                 .filter(|&j| {
-                    let comp_vars = Self::variables_of_predicate(&comparisons[j]);
+                    let comp_vars = Self::comparison_variables(&comparisons[j]);
                     comp_vars.iter().all(|v| base_vars_set.contains(v))
                 })
                 .collect();
@@ -467,6 +467,20 @@ impl SipRewriter {
     /// Get variables of a body predicate
     fn variables_of_predicate(pred: &BodyPredicate) -> HashSet<String> {
         pred.variables()
+    }
+
+    /// All variables a comparison mentions, including those inside arithmetic expressions
+    /// and function calls (`BodyPredicate::variables` only reports operands that are plain
+    /// variables, so `Z != X - 1` would look as if it depended on `Z` alone).
+    fn comparison_variables(pred: &BodyPredicate) -> HashSet<String> {
+        match pred {
+            BodyPredicate::Comparison(left, _, right) => {
+                let mut vars = left.variables();
+                vars.extend(right.variables());
+                vars
+            }
+            other => other.variables(),
+        }
     }
 
     /// Get unique variables of a predicate (deduplicated, preserving first-occurrence order)
